@@ -20,6 +20,11 @@ type QueryOpts struct {
 	// Exclusions for known findings; OnExclude(what) is called each time the
 	// generator leaves out (or rewrites) one construct because of them.
 	NoNullsOrder bool // ORDER BY ... NULLS FIRST/LAST
+	// NoMixedJoin: no equi-join between an INTEGER and a FLOAT column.
+	NoMixedJoin bool
+	// NoMixedInJoin: no INTEGER-column-vs-FLOAT-constant comparison (or vice
+	// versa) inside join conditions, WHERE clauses of joins and subqueries.
+	NoMixedInJoin bool
 	// NoNonEquiJoin: no join condition with a non-equality comparison between the two tables.
 	NoNonEquiJoin bool
 	// NoBigMixedCompare: no INTEGER-vs-FLOAT comparison with a magnitude of 2^52 or more.
@@ -236,6 +241,10 @@ func (g *Gen) leaf(refs []From) Expr {
 			return &Cmp{Op: rapid.SampledFrom(cmpOps).Draw(g.rt, "op2"), L: col, R: c2}
 		}
 	case kind == 14 && c.Type.Numeric() && g.notNull(col): // INTEGER column vs FLOAT constant and vice versa
+		if g.reduced && g.o.NoMixedInJoin {
+			g.o.excluded("INTEGER/FLOAT constant comparison in a join or subquery")
+			break
+		}
 		v := GenNonNull(g.rt, c)
 		if g.o.NoBigMixedCompare && ((c.Type == TInt && (v.I >= 1<<52 || v.I <= -(1<<52))) || (c.Type == TFloat && math.Abs(v.F) >= 1<<52)) {
 			g.o.excluded("INTEGER/FLOAT comparison beyond 2^52")
@@ -605,6 +614,15 @@ func (g *Gen) grouped(s *Schema, t *Table) *Query {
 func (g *Gen) joinCols(a, b *Table) (shared, typed [][2]*Column) {
 	for _, ca := range a.Cols {
 		for _, cb := range b.Cols {
+			if ca.Type != cb.Type && ca.Type.Numeric() && cb.Type.Numeric() && ca.NotNull && cb.NotNull && smallInts(ca) && smallInts(cb) {
+				// INTEGER = FLOAT over NOT NULL columns (a NULL of one type cannot be compared with the other)
+				if g.o.NoMixedJoin {
+					g.o.excluded("INTEGER = FLOAT equi-join")
+				} else {
+					typed = append(typed, [2]*Column{ca, cb})
+				}
+				continue
+			}
 			if ca.Type != cb.Type || ca.Type == TJSON {
 				continue
 			}
@@ -620,6 +638,16 @@ func (g *Gen) joinCols(a, b *Table) (shared, typed [][2]*Column) {
 		}
 	}
 	return
+}
+
+// smallInts: every pool value is exactly representable as a float64.
+func smallInts(c *Column) bool {
+	for _, v := range c.Pool {
+		if (c.Type == TInt && (v.I >= 1<<52 || v.I <= -(1<<52))) || (c.Type == TFloat && math.Abs(v.F) >= 1<<52) {
+			return false
+		}
+	}
+	return true
 }
 
 func (g *Gen) joined(s *Schema, t *Table) *Query {
